@@ -3,6 +3,7 @@ package vc
 import (
 	"fmt"
 	"go/ast"
+	"go/types"
 	"regexp"
 	"sort"
 	"strconv"
@@ -16,11 +17,23 @@ import (
 // variable name as comment).
 func (f *Frame) indexVars() {
 	f.varRefs = map[string][]varRef{}
+	var info *types.Info
+	if pk := pkgOf(f.fn); pk != nil {
+		if pp := f.u.eng.AllPkgs[pk.Path()]; pp != nil {
+			info = pp.TypesInfo
+		}
+	}
 	for _, b := range f.fn.Blocks {
 		for i, ins := range b.Instrs {
 			switch x := ins.(type) {
 			case *ssa.DebugRef:
 				if id, ok := x.Expr.(*ast.Ident); ok {
+					if info != nil {
+						// only variables: the selector identifier of x.f also gets a DebugRef
+						if v, ok := info.ObjectOf(id).(*types.Var); !ok || v.IsField() {
+							continue
+						}
+					}
 					f.varRefs[id.Name] = append(f.varRefs[id.Name], varRef{b, i, x.X, x.IsAddr})
 				}
 			case *ssa.Phi:
@@ -184,6 +197,10 @@ func (f *Frame) enterLoop(li *loopInfo, cur *State, rc *runCtx) {
 	for k, v := range f.callOrd {
 		savedOrd[k] = v
 	}
+	savedAnchor := map[string]int{}
+	for k, v := range f.anchorOrd {
+		savedAnchor[k] = v
+	}
 	numBefore := u.nfresh
 	dry := cur.clone()
 	drc := &runCtx{out: map[*ssa.BasicBlock]*State{}, edge: map[[2]int]T{}}
@@ -196,6 +213,7 @@ func (f *Frame) enterLoop(li *loopInfo, cur *State, rc *runCtx) {
 	f.rets = f.rets[:nrets]
 	f.defers = f.defers[:ndefers]
 	f.callOrd = savedOrd
+	f.anchorOrd = savedAnchor
 	// 3. havoc
 	li.pre = cur.clone()
 	li.preVals = map[*ssa.Phi]*V{}
